@@ -198,6 +198,8 @@ def take_logged(uncaught_only=True):
 
 _twlog.addObserver(_log_observer)
 try:
-    _twlog.defaultObserver.stop()
+    # end twisted's "logging has not begun yet" mode, which prints every error to stderr
+    from twisted.logger import globalLogBeginner as _glb
+    _glb.beginLoggingTo([], discardBuffer=True, redirectStandardIO=False)
 except Exception:  # noqa
     pass
